@@ -105,6 +105,8 @@ macro_rules! c01_impl {
                 2 => sized!($V, c, &x, 2, A2),
                 3 => sized!($V, c, &x, 3, A3),
                 4 => sized!($V, c, &x, 4, A4),
+                5 => sized!($V, c, &x, 5, A5),
+                7 => sized!($V, c, &x, 7, A7),
                 n => format!("BAD size {}", n),
             }
         }
